@@ -69,6 +69,9 @@ def check(run):
                     "first_key": c["abs"]["keys"][0]} for c in cases[:3]]
     loadfam.replay_load(run, cases, "Trace_Fallback", "Trace_Fallback.cfg",
                         key_of=lambda c, r: "inh=%s;%s" % (sorted(c["abs"]["inh"].items()), sorted(r["tags"])[0]))
+    # the same projects inside a namespace
+    loadfam.replay_load(run, loadfam.namespaced(cases), "Trace_Fallback", "Trace_Fallback.cfg", tag="_ns",
+                        key_of=lambda c, r: "namespaced;inh=%s;%s" % (sorted(c["abs"]["inh"].items()), sorted(r["tags"])[0]))
     run.notes["l2_render_events"] = run_l2(run, cases, 6 if run.tier == "quick" else 60)
     run.exhaustive = True
     run.assumptions = ["L2: a seeded sample of the projects (inherits maps with at least two entries) is compiled with load_locales!() and td_string! (td! on a subset) is executed "
